@@ -235,7 +235,7 @@ func byDefinition(fn string, raw bool, args []string) string {
 		// are generated: an unbound symbol, or a list that is not a call.
 		if raw && 0 < len(args) {
 			switch args[0] {
-			case "sym", "fsym", "list3", "list1", "dotted", "dotted3", "alist", "plist", "nested":
+			case "sym", "list3", "list1", "dotted", "dotted3", "alist", "plist", "nested":
 				return ""
 			}
 		}
